@@ -42,7 +42,7 @@ def detect(patch, pids):
     try:
         for pid in pids:
             t0 = time.time()
-            rc, out = sh(f"./vcheck {pid} --tier quick", cwd="/verif", timeout=3000)
+            rc, out = sh(f"./vcheck {pid} --tier quick", cwd=os.path.dirname(os.path.dirname(os.path.abspath(__file__))), timeout=3000)
             lines = [l for l in out.split("\n") if l.startswith(("VIOLATION", "OK ", "ERROR", "KNOWN"))]
             res[pid] = dict(exit=rc, lines=[l[:300] for l in lines], secs=round(time.time() - t0))
             if rc == 1:
@@ -81,3 +81,27 @@ if __name__ == "__main__":
         verify(a[1], a[2])
     elif a[0] == "detect":
         detect(a[1], a[2:])
+    elif a[0] == "all":
+        # mutant.py all <worktree> <pid> [extra pids...]: verify + detect each of out/1..3, print one summary line each
+        wt, pid = a[1], a[2]
+        summary = {}
+        for k in sorted(os.listdir(os.path.join(wt, "out"))):
+            if not os.path.exists(os.path.join(wt, "out", k, "patch.diff")):
+                continue
+            v = verify(wt, k)
+            d = detect(os.path.join(wt, "out", k, "patch.diff"), a[2:]) if v["confirmed"] else {}
+            summary[k] = dict(confirmed=v["confirmed"], detect={q: (r["exit"], r.get("what", "")[:160]) for q, r in d.items()})
+        print("SUMMARY", json.dumps(summary, indent=1))
+    elif a[0] == "refactors":
+        # mutant.py refactors <worktree> <pid>...: harmless rewrites out/k/patch.diff; every check must stay quiet
+        wt = a[1]
+        summary = {}
+        for k in sorted(os.listdir(os.path.join(wt, "out"))):
+            pf = os.path.join(wt, "out", k, "patch.diff")
+            if not os.path.exists(pf):
+                continue
+            d = detect(pf, a[2:])
+            summary[k] = {q: (r["exit"], r.get("what", "")[:200], r["lines"][-1:] ) for q, r in d.items()}
+        print("SUMMARY", json.dumps(summary, indent=1))
+    elif a[0] == "keep":
+        keep(a[1], a[2], a[3], a[4], a[5], a[6].split(","))
